@@ -201,6 +201,47 @@ theorem invalidate_fold_users (st : St) (l : List (Int × Str)) :
   | nil => rfl
   | cons e es ih => simp only [List.foldl_cons]; rw [ih, (invalidateHost_db st e.2).1]
 
+theorem delUser_auth (st : St) (id : Nat) : AuthFrom st.db.users [] (delUser st id).1.db.users := by
+  unfold delUser
+  split
+  · exact authFrom_refl _ _
+  · dsimp only
+    rw [(invalidateId_db _ id).1]
+    intro u' hu e he
+    exact Or.inl ⟨u', (List.mem_filter.1 hu).1, rfl, he⟩
+
+theorem registerTail_auth {l : List User} {st1 : St} {u0 : User} (hl : AuthFrom l [] st1.db.users)
+    (hu0 : u0.auth = []) (h : Option Str) : AuthFrom l [] (registerTail st1 u0 h).1.db.users := by
+  unfold registerTail
+  cases h with
+  | none =>
+    dsimp only
+    have hs : AuthFrom l [] (setUser st1 u0).1.db.users :=
+      setUser_auth_from hl (fun e he => by rw [hu0] at he; cases he)
+    split
+    · exact hs
+    · exact authFrom_trans hs (delUser_auth _ _)
+  | some h =>
+    dsimp only
+    cases ha : addHostmask u0 h with
+    | error e => exact authFrom_trans hl (delUser_auth _ _)
+    | ok u1 =>
+      dsimp only
+      have hau : u1.auth = [] := by
+        unfold addHostmask at ha
+        split at ha
+        · cases ha
+        · split at ha
+          · cases ha
+          · injection ha with ha; subst ha; exact hu0
+      have hs : AuthFrom l [] (setUser { st1 with db := st1.db.putUser u1 } u1).1.db.users := by
+        refine setUser_auth_from (authFrom_trans hl (authFrom_put ?_)) ?_
+        · intro e he; rw [hau] at he; cases he
+        · intro e he; rw [hau] at he; cases he
+      split
+      · exact hs
+      · exact authFrom_trans hs (delUser_auth _ _)
+
 /-- the logins an operation may add: `identify` one, every other operation none -/
 def extraOf (st : St) : Op → List (Nat × (Int × Str))
   | .identify id h => [(id, (st.now, h))]
@@ -221,26 +262,7 @@ theorem step_auth (st : St) (op : Op) : AuthFrom st.db.users (extraOf st op) (st
         refine authFrom_trans (b := putUser st.db.users { id := st.nextId + 1 }) ?_ ?_
         · exact authFrom_put (fun e he => by cases he)
         · exact authFrom_put (fun e he => by cases he)
-      cases h with
-      | none =>
-        dsimp only
-        exact setUser_auth_from hblank (fun e he => by cases he)
-      | some h =>
-        dsimp only
-        cases ha : addHostmask { id := (newUser st).2, name := name } h with
-        | error e => dsimp only; exact hblank
-        | ok u1 =>
-          dsimp only
-          have hau : u1.auth = [] := by
-            unfold addHostmask at ha
-            split at ha
-            · cases ha
-            · split at ha
-              · cases ha
-              · injection ha with ha; subst ha; rfl
-          refine setUser_auth_from (authFrom_trans hblank (authFrom_put ?_)) ?_
-          · intro e he; rw [hau] at he; cases he
-          · intro e he; rw [hau] at he; cases he
+      exact registerTail_auth hblank rfl h
   | addHost id h =>
     simp only [step, extraOf]
     apply withUser_auth
